@@ -43,32 +43,40 @@ Qed.
 (* the natural parameters of every product are the same on all four code paths *)
 Ltac paths := rewrite /with_inverse /without_cache /with_cache /inv_all /=.
 
+(* what remains after unfolding one code path: the sum of natural parameters, with the zero
+   blocks of linear / constant factors written out *)
+Lemma eval_core_lin_add D (A : mat) (a b : vec) (la lb : LS) x :
+  eval_core D A (vadd a b) (la + lb) x = eval_core D A a la x + eval_core D mzero b lb x.
+Proof.
+rewrite -eval_coreD; apply: eval_core_ext => // i j _ _.
+by rewrite /madd /mzero addr0.
+Qed.
+Lemma eval_core_const_add D (A : mat) (a : vec) (la lb : LS) x :
+  eval_core D A a (la + lb) x = eval_core D A a la x + eval_core D mzero vzero lb x.
+Proof.
+rewrite -eval_coreD; apply: eval_core_ext => [i j _ _|i _].
+- by rewrite /madd /mzero addr0.
+- by rewrite /vadd /vzero addr0.
+Qed.
+
+Ltac kinds Hwf :=
+  first [ by rewrite eval_coreD
+        | by rewrite Hwf eval_core_lin_add
+        | by let HL := fresh "HL" in let Hn := fresh "Hn" in case: Hwf => HL Hn; rewrite HL Hn eval_core_const_add ].
+
 Theorem multiply_eval upd (u : measure) (f : factor) i j x :
-  fwf f -> (i < uR u)%N -> (j < fR f)%N ->
+  fwf f -> uD u = fD f -> (i < uR u)%N -> (j < fR f)%N ->
   ueval (multiply upd u f) (i * fR f + j) x = ueval u i x + feval f j x.
 Proof.
-move=> Hwf Hi Hj.
+move=> Hwf HD Hi Hj.
 have Hk : (i * fR f + j < uR u * fR f)%N.
   apply: (@leq_trans (i.+1 * fR f)); last by rewrite leq_mul2r Hi orbT.
   by rewrite mulSn addnC ltn_add2r.
 have Hd : ((i * fR f + j) %/ fR f = i)%N by rewrite divnMDl ?(leq_ltn_trans _ Hj) // divn_small // addn0.
-have Hm : ((i * fR f + j) %% fR f = j)%N by rewrite addnC modnMDl modn_small.
-move: Hwf; rewrite /multiply /fwf /feval.
+have Hm : ((i * fR f + j) %% fR f = j)%N by rewrite modnMDl modn_small.
+move: Hwf; rewrite /multiply /fwf /feval {2}/ueval HD.
 case: (fk f) => [|v g||] Hwf; case: upd => /=; try (case: (uSig u) => [Sg|] /=); paths;
-  rewrite ueval_tab // ?Hd ?Hm.
-all: try by rewrite eval_coreD.
-- by rewrite Hwf -eval_coreD; apply: eval_core_ext => // a b _ _; rewrite /madd /mzero addr0.
-- by rewrite Hwf -eval_coreD; apply: eval_core_ext => // a b _ _; rewrite /madd /mzero addr0.
-- by rewrite Hwf -eval_coreD; apply: eval_core_ext => // a b _ _; rewrite /madd /mzero addr0.
-- case: Hwf => HL Hn; rewrite HL Hn -eval_coreD; apply: eval_core_ext => [a b _ _|a _].
-  + by rewrite /madd /mzero addr0.
-  + by rewrite /vadd /vzero addr0.
-- case: Hwf => HL Hn; rewrite HL Hn -eval_coreD; apply: eval_core_ext => [a b _ _|a _].
-  + by rewrite /madd /mzero addr0.
-  + by rewrite /vadd /vzero addr0.
-- case: Hwf => HL Hn; rewrite HL Hn -eval_coreD; apply: eval_core_ext => [a b _ _|a _].
-  + by rewrite /madd /mzero addr0.
-  + by rewrite /vadd /vzero addr0.
+  rewrite ueval_tab // ?Hd ?Hm; kinds Hwf.
 Qed.
 
 Theorem multiply_R upd (u : measure) (f : factor) : uR (multiply upd u f) = (uR u * fR f)%N.
@@ -78,25 +86,12 @@ Qed.
 
 (* component-wise product; a single-component operand is broadcast *)
 Theorem hadamard_eval upd (u : measure) (f : factor) k x :
-  fwf f -> (k < maxn (uR u) (fR f))%N ->
+  fwf f -> uD u = fD f -> (k < maxn (uR u) (fR f))%N ->
   ueval (hadamard upd u f) k x = ueval u (bidx (uR u) k) x + feval f (bidx (fR f) k) x.
 Proof.
-move=> Hwf Hk; move: Hwf; rewrite /hadamard /fwf /feval.
+move=> Hwf HD Hk; move: Hwf; rewrite /hadamard /fwf /feval {2}/ueval HD.
 case: (fk f) => [|v g||] Hwf; case: upd => /=; try (case: (uSig u) => [Sg|] /=); paths;
-  rewrite ueval_tab //.
-all: try by rewrite eval_coreD.
-- by rewrite Hwf -eval_coreD; apply: eval_core_ext => // a b _ _; rewrite /madd /mzero addr0.
-- by rewrite Hwf -eval_coreD; apply: eval_core_ext => // a b _ _; rewrite /madd /mzero addr0.
-- by rewrite Hwf -eval_coreD; apply: eval_core_ext => // a b _ _; rewrite /madd /mzero addr0.
-- case: Hwf => HL Hn; rewrite HL Hn -eval_coreD; apply: eval_core_ext => [a b _ _|a _].
-  + by rewrite /madd /mzero addr0.
-  + by rewrite /vadd /vzero addr0.
-- case: Hwf => HL Hn; rewrite HL Hn -eval_coreD; apply: eval_core_ext => [a b _ _|a _].
-  + by rewrite /madd /mzero addr0.
-  + by rewrite /vadd /vzero addr0.
-- case: Hwf => HL Hn; rewrite HL Hn -eval_coreD; apply: eval_core_ext => [a b _ _|a _].
-  + by rewrite /madd /mzero addr0.
-  + by rewrite /vadd /vzero addr0.
+  rewrite ueval_tab //; kinds Hwf.
 Qed.
 
 Theorem hadamard_R upd (u : measure) (f : factor) : uR (hadamard upd u f) = maxn (uR u) (fR f).
@@ -112,13 +107,27 @@ rewrite /fproduct /mk_general /feval /= tablE // -eval_core_sum.
 by apply: eval_core_ext => [i j Hi Hj|i Hi]; rewrite ?tabbE ?tabbvE.
 Qed.
 
+Definition core (u : measure) := (uR u, uD u, uLam u, unu u, ulb u, ucls u).
+Definition same_core (u v : measure) : Prop := core v = core u.
+Lemma same_core_refl u : same_core u u. Proof. by []. Qed.
+Lemma same_core_trans u v w : same_core u v -> same_core v w -> same_core u w.
+Proof. by rewrite /same_core => H1 H2; rewrite H2 H1. Qed.
+Lemma ensure_Sigma_core u : same_core u (ensure_Sigma u).
+Proof. by rewrite /ensure_Sigma; case: (uSig u) => [Sg|]. Qed.
+Lemma compute_lnZ_core u : same_core u (compute_lnZ u).
+Proof. exact: (ensure_Sigma_core u). Qed.
+Lemma compute_mu_core u : same_core u (compute_mu u).
+Proof. exact: (ensure_Sigma_core u). Qed.
+Lemma prepare_same_core u : same_core u (prepare u).
+Proof.
+rewrite /prepare; set u1 := (if ulnZ u is Some _ then u else compute_lnZ u).
+have H1 : same_core u u1 by rewrite /u1; case: (ulnZ u) => [z|]; [exact: same_core_refl | exact: compute_lnZ_core].
+case: (umu u1) => [m|] //; exact: (same_core_trans H1 (compute_mu_core u1)).
+Qed.
 Lemma prepare_core (u : measure) :
   [/\ uR (prepare u) = uR u, uD (prepare u) = uD u, uLam (prepare u) = uLam u,
       unu (prepare u) = unu u & ulb (prepare u) = ulb u].
-Proof.
-rewrite /prepare /compute_lnZ /compute_mu /ensure_Sigma /invert_lambda.
-by case: (ulnZ u) => [z|]; case: (umu u) => [m|]; case: (uSig u) => [Sg|] /=.
-Qed.
+Proof. by have [-> -> -> -> -> _] := prepare_same_core u. Qed.
 
 Theorem uproduct_eval (u : measure) x :
   ueval (uproduct u) 0 x = suml (uR u) (fun r => ueval u r x).
@@ -126,14 +135,12 @@ Proof.
 rewrite /uproduct; set p := Measure _ _ _ _ _ _ _ _ _ _ _.
 have Hp : ueval p 0 x = suml (uR u) (fun r => ueval u r x).
   rewrite /p ueval_tab // -eval_core_sum; exact: eval_core_ext.
-case: (uSig u) => [Sg|] //.
-by rewrite -Hp /ueval; have [_ -> -> -> ->] := prepare_core p.
+by case: (uSig u) => [Sg|] //; rewrite -Hp /ueval; have [_ -> -> -> ->] := prepare_core p.
 Qed.
 
 Theorem uproduct_R (u : measure) : uR (uproduct u) = 1%N.
 Proof.
-rewrite /uproduct; case: (uSig u) => [Sg|] //.
-by have [-> _ _ _ _] := prepare_core (Measure 1 (uD u) _ _ _ None None None None None _).
+by rewrite /uproduct; case: (uSig u) => [Sg|] //; have [-> _ _ _ _] := prepare_core (Measure 1 (uD u) _ _ _ None None None None None _).
 Qed.
 
 End C01.
